@@ -414,6 +414,20 @@ func oc16Congruence(asserts []*Term, oc16Done map[string]bool) []*Term {
 	}
 	bound := BVi(1<<48, 64)
 	var out []*Term
+	// complement rule (the "checksum field := ^sum" idiom): if a 16-bit value c represents a
+	// sum Y (oc16(c) = oc16(Y)), then Y + (0xffff - c) is a multiple of 65535.
+	for _, e := range eqs {
+		if e.x.Op != "zero_extend" || e.x.Args[0].Sort.W != 16 {
+			continue
+		}
+		key := fmt.Sprintf("cpl/%d/%d", e.eq.id, e.x.id)
+		if oc16Done[key] {
+			continue
+		}
+		oc16Done[key] = true
+		out = append(out, Implies(And(e.eq, ULe(e.y, bound)),
+			Eq(App("spec|oc16", BVSort(64), Add(e.y, Sub(BVi(0xffff, 64), e.x))), BVi(0, 64))))
+	}
 	for _, a := range apps {
 		var ops []*Term
 		sumOperands(a.Args[0], &ops)
